@@ -65,6 +65,8 @@ def c07_configs(tier):
                 out.append(pair(1, 2, [0, 2], _time=1500, **k))      # 15 bits
                 if tier == 'thorough' or (enc, sel) == (0, 0): out.append(pair(2, 2, [0, 0, 2], **dict(UP22, _time=2800, **k)))   # 18 bits
         out.append(pair(1, 1, [0, 0, 1], **k))                       # 8 bits
+        out.append(pair(1, 1, [0, 1, 2], SAME_NAME=None, **k))       # 8 bits: one symbol name used with three ranks (a:0 a:1 a:2)
+        out.append(pair(2, 1, [0, 1], SAME_NAME=None, **k))          # 11 bits: a:0 a:1
         out.append(pair(1, 1, [0, 0, 2], **k))                       # 8 bits
         out.append(pair(2, 1, [0, 1], **k))                          # 11 bits
         out.append(pair(1, 2, [0, 1], **k))                          # 11 bits
@@ -91,7 +93,7 @@ CHECKS = {
  'C07': {
   'level': 'model_checking',
   'explanation': 'BDDBottomUpTreeAut::CheckInclusion / BDDTopDownTreeAut::CheckInclusion executed symbolically (MTBDD package, sanitisation, inversion to top-down form, simulation computation included) for every parameter selection on every pair of automata drawn from the rule universes of the configuration (presence bit per rule, finality bit per state); operands loaded through LoadFromString and prepared as cli/operations.hh does (SanitizeAutsForInclusion; for sim=yes the relation the tool computes on UnionDisjointStates, or the identity relation where the library cannot compute one). Implemented selections: the verdict must equal an independent macro-state inclusion oracle on the rule masks (the same oracle semantics as the explicit-encoding check C01); every other selection must end in an exception (of any type) - or, should a future version implement it, in that same exact verdict: never in a wrong one.',
-  'bounds': {'quick': 'pairs (A,B): 1+1 over {a/0,b/0,f/1} and {a/0,b/0,g/2}; 2+1, 1+2 over {a/0,f/1}; 1+2 over {a/0,b/0,g/2} with B restricted to a 6-rule sub-universe in which children are reached by different trees; all rule subsets and final sets (8..12 free bits per query); 8 implemented selections (bottom-up: upward, upward+identity relation, downward+simulation computed by the library; top-down: downward recursive with/without implication cache, with/without identity relation), the unimplemented selections on 1+1 (5 whose exception comes from ComputeSimulation, 11 whose message is built through the Convert stubs); plus (added after the red-team rounds): B6X (one child position of a binary rule of B simulates, the other does not), the joint-cover universes JOINT (2+3 over {a/0,b/0,g/2}, 14 bits) and JOINT3 (2+3 over {a/0,b/0,c/0,g/2}, 15 bits; quick: the plain downward functor with and without relation), PROD23 (2+3 over {a/0,b/0,g/2}, 19 bits: a 2 x 3 product of child tuples in the upward algorithm), calls without caller-side sanitisation for the selections that sanitise themselves, and 8 top-down queries under the heap model that reuses released addresses; since the repair of C07-1 the two upward selections also run on JOINT, JOINT3 (without relation), the full 2+1 and 1+2 universes over {a/0,g/2} (15 bits) and, without relation, UP22 (2+2 over {a/0,b/0,g/2}, 18 bits: both children of a rule of A carry several macro-states of B)',
+  'bounds': {'quick': 'pairs (A,B): 1+1 over {a/0,b/0,f/1} and {a/0,b/0,g/2}; 2+1, 1+2 over {a/0,f/1}; 1+2 over {a/0,b/0,g/2} with B restricted to a 6-rule sub-universe in which children are reached by different trees; all rule subsets and final sets (8..12 free bits per query); 8 implemented selections (bottom-up: upward, upward+identity relation, downward+simulation computed by the library; top-down: downward recursive with/without implication cache, with/without identity relation), the unimplemented selections on 1+1 (5 whose exception comes from ComputeSimulation, 11 whose message is built through the Convert stubs); plus (added after the red-team rounds): B6X (one child position of a binary rule of B simulates, the other does not), the joint-cover universes JOINT (2+3 over {a/0,b/0,g/2}, 14 bits) and JOINT3 (2+3 over {a/0,b/0,c/0,g/2}, 15 bits; quick: the plain downward functor with and without relation), PROD23 (2+3 over {a/0,b/0,g/2}, 19 bits: a 2 x 3 product of child tuples in the upward algorithm), calls without caller-side sanitisation for the selections that sanitise themselves, and 8 top-down queries under the heap model that reuses released addresses; one symbol name used with several ranks (a:0 a:1 a:2 on 1+1, a:0 a:1 on 2+1; third red-team round: the arity prefix of the top-down encoding is what keeps such symbols apart); since the repair of C07-1 the two upward selections also run on JOINT, JOINT3 (without relation), the full 2+1 and 1+2 universes over {a/0,g/2} (15 bits) and, without relation, UP22 (2+2 over {a/0,b/0,g/2}, 18 bits: both children of a rule of A carry several macro-states of B)',
              'thorough': 'as quick plus 2+2 over {a/0,f/1}, 1+2 over {a/0,b/0,g/2} with an 8-rule sub-universe of B, 2+1 with loader-assigned numbering (up to 16 free bits per query); JOINT / JOINT3 for every implemented selection, PROD23 with a supplied relation, address reuse also for bottom-up downward and on JOINT; UP22 and JOINT3 also with a supplied relation'},
   'outside': 'more than 2 states per operand, rank > 2, more than 3 symbols; simulation relations other than identity / the one the library computes; congruence algorithm, breadth-first order',
   'harnesses': [
